@@ -1,143 +1,56 @@
-/- C09: parity_code(n), n ≥ 2: the reshaped decoder matrix and validity on all vectors. -/
+/- C09: parity_code(n): the bidiagonal decoder matrix inverts the prefix sums, on all vectors. -/
 import OFV.Proofs.C09Checksum
-import Mathlib.Tactic.Ring
 
 namespace OFV.C09
 open OFV.Model.C09 OFV.Spec.C09
 
-/-! ### structural reading of `onesOf` -/
+/-! ### the bidiagonal decoder matrix `eye(n) + eye(n, k=-1)` -/
 
-/-- XOR of `w k, w (k+1), …` over the entries of the row that are 1 -/
-def xorIdx (w : Nat → Bool) : List Nat → Nat → Bool
-  | [], _ => false
-  | e :: r, k => xor (e == 1 && w k) (xorIdx w r (k + 1))
+theorem getD_parityDec (n i : Nat) (h : i < n) :
+    (parityDec n).getD i [] = (List.range n).map fun j => if i = j ∨ i = j + 1 then 1 else 0 := by
+  simp [parityDec, List.getD_eq_getElem?_getD, h]
 
-theorem xorCols_filter_range' (w : Nat → Bool) (row : List Nat) (k : Nat) :
-    xorCols w ((List.range' k row.length).filter fun c => row.getD (c - k) 0 == 1) = xorIdx w row k := by
-  induction row generalizing k with
-  | nil => rfl
-  | cons e r ih =>
-    rw [List.length_cons, List.range'_succ, List.filter_cons]
-    have htail : (List.range' (k + 1) r.length).filter (fun c => (e :: r).getD (c - k) 0 == 1)
-        = (List.range' (k + 1) r.length).filter (fun c => r.getD (c - (k + 1)) 0 == 1) := by
-      apply List.filter_congr
-      intro c hc
-      have hc' := (List.mem_range'_1.mp hc).1
-      have : c - k = (c - (k + 1)) + 1 := by omega
-      rw [this]; simp
-    rw [htail]
-    simp only [Nat.sub_self, List.getD_cons_zero]
-    unfold xorIdx
-    rw [← ih (k + 1)]
-    by_cases he : e = 1
-    · simp [he, xorCols_cons]
-    · have : (e == 1) = false := by simp [he]
-      simp [this]
-
-theorem xorCols_onesOf (w : Nat → Bool) (row : List Nat) : xorCols w (onesOf row) = xorIdx w row 0 := by
+theorem onesOf_parityRow (n i : Nat) (h : i < n) :
+    onesOf ((List.range n).map fun j => if i = j ∨ i = j + 1 then 1 else 0)
+      = (List.range n).filter fun c => decide (i = c ∨ i = c + 1) := by
   unfold onesOf
-  rw [List.range_eq_range', ← xorCols_filter_range' w row 0]
-  simp
+  rw [List.length_map, List.length_range]
+  apply List.filter_congr
+  intro c hc
+  rw [getD_map_range n _ c (List.mem_range.mp hc)]
+  by_cases hic : i = c ∨ i = c + 1 <;> simp [hic]
 
-theorem xorIdx_zeros (w : Nat → Bool) (b k : Nat) : xorIdx w (zeros b) k = false := by
-  induction b generalizing k with
-  | zero => rfl
-  | succ b ih =>
-    simp only [zeros, List.replicate_succ, xorIdx] at ih ⊢
-    rw [ih]; simp
+theorem filter_range_first (n : Nat) (h : 0 < n) :
+    (List.range n).filter (fun c => decide (0 = c ∨ 0 = c + 1)) = [0] := by
+  rw [← filter_range_eq n 0 h]
+  apply List.filter_congr
+  intro c _
+  by_cases hc : 0 = c <;> simp [hc]
 
-theorem xorIdx_zeros_append (w : Nat → Bool) (a : Nat) (r : List Nat) (k : Nat) :
-    xorIdx w (zeros a ++ r) k = xorIdx w r (k + a) := by
-  induction a generalizing k with
-  | zero => simp [zeros]
-  | succ a ih =>
-    simp only [zeros, List.replicate_succ, List.cons_append, xorIdx] at ih ⊢
-    rw [ih (k + 1)]
-    have : k + 1 + a = k + (a + 1) := by omega
-    rw [this]; simp
-
-theorem xorIdx_pair (w : Nat → Bool) (a b : Nat) :
-    xorIdx w (zeros a ++ ([1, 1] ++ zeros b)) 0 = xor (w a) (w (a + 1)) := by
-  rw [xorIdx_zeros_append]
-  simp [xorIdx, xorIdx_zeros]
-
-theorem xorIdx_first (w : Nat → Bool) (b : Nat) : xorIdx w ([1] ++ zeros b) 0 = w 0 := by
-  simp [xorIdx, xorIdx_zeros]
-
-/-! ### the reshape of `parity_code` -/
-
-theorem zeros_add (a b : Nat) : zeros (a + b) = zeros a ++ zeros b := by
-  simp [zeros, List.replicate_append_replicate]
-
-theorem length_zeros (a : Nat) : (zeros a).length = a := by simp [zeros]
-
-theorem chunks_cons_of_length (k w : Nat) (l1 l2 : List Nat) (h : l1.length = w) :
-    chunks (k + 1) w (l1 ++ l2) = l1 :: chunks k w l2 := by
-  simp [chunks, ← h]
-
-/-- after `k` rows the stream is `k` zeros followed by the remaining blocks -/
-theorem chunks_parity (m k : Nat) :
-    chunks (m + 1) (k + m + 2)
-      (zeros k ++ ((List.replicate m ([1, 1] ++ zeros (k + m + 1))).flatten ++ [1, 1]))
-      = (List.range (m + 1)).map fun t => zeros (k + t) ++ ([1, 1] ++ zeros (m - t)) := by
-  induction m generalizing k with
-  | zero =>
-    have : zeros k ++ (([] : List (List Nat)).flatten ++ [1, 1]) = (zeros k ++ [1, 1]) ++ [] := by simp
-    rw [List.replicate_zero, this, chunks_cons_of_length 0 _ _ _ (by simp [length_zeros])]
-    simp [chunks, zeros]
-  | succ m ih =>
-    have hstream : zeros k ++ ((List.replicate (m + 1) ([1, 1] ++ zeros (k + (m + 1) + 1))).flatten ++ [1, 1])
-        = (zeros k ++ ([1, 1] ++ zeros (m + 1))) ++
-          (zeros (k + 1) ++ ((List.replicate m ([1, 1] ++ zeros ((k + 1) + m + 1))).flatten ++ [1, 1])) := by
-      have h1 : k + (m + 1) + 1 = (m + 1) + (k + 1) := by omega
-      have h2 : k + 1 + m + 1 = (m + 1) + (k + 1) := by omega
-      rw [List.replicate_succ, List.flatten_cons, h1, h2, zeros_add (m + 1) (k + 1)]
-      simp [List.append_assoc]
-    have hw : k + (m + 1) + 2 = (k + 1) + m + 2 := by omega
-    rw [hstream, chunks_cons_of_length (m + 1) _ _ _ (by simp [length_zeros]; omega), hw, ih (k + 1),
-      List.range_succ_eq_map (n := m + 1), List.map_cons, List.map_map]
-    congr 1
-    apply List.map_congr_left
-    intro t _
-    simp only [Function.comp, Nat.succ_eq_add_one]
-    have e1 : k + 1 + t = k + (t + 1) := by omega
-    have e2 : m - t = m + 1 - (t + 1) := by omega
-    rw [e1, e2]
-
-theorem length_flatten_replicate (m : Nat) (B : List Nat) : (List.replicate m B).flatten.length = m * B.length := by
-  induction m with
-  | zero => simp
-  | succ m ih => rw [List.replicate_succ, List.flatten_cons, List.length_append, ih]; ring
-
-/-- the decoder matrix of `parity_code(m + 2)` -/
-theorem reshape_parity (m : Nat) :
-    reshapeSq (parityFlat (m + 2)) (m + 2) = .ok
-      (([1] ++ zeros (m + 1)) ::
-        (List.range (m + 1)).map fun t => zeros t ++ ([1, 1] ++ zeros (m - t))) := by
-  unfold reshapeSq
-  have hlen : (parityFlat (m + 2)).length = (m + 2) * (m + 2) := by
-    simp only [parityFlat, List.length_append, length_flatten_replicate, length_zeros, List.length_cons,
-      List.length_nil]
-    have : m + 2 - 2 = m := by omega
-    have h1 : m + 2 - 1 = m + 1 := by omega
-    rw [this, h1]; ring
-  rw [if_neg (by simp [hlen])]
-  congr 1
-  have hflat : parityFlat (m + 2) = ([1] ++ zeros (m + 1)) ++
-      (zeros 0 ++ ((List.replicate m ([1, 1] ++ zeros (0 + m + 1))).flatten ++ [1, 1])) := by
-    simp only [parityFlat]
-    have : m + 2 - 2 = m := by omega
-    have h1 : m + 2 - 1 = m + 1 := by omega
-    rw [this, h1]
-    simp [zeros, List.append_assoc]
-  have hw : m + 2 = 0 + m + 2 := by omega
-  rw [hflat, chunks_cons_of_length (m + 1) (m + 2) _ _ (by simp [length_zeros])]
-  congr 1
-  conv => lhs; rw [hw]
-  rw [chunks_parity m 0]
-  apply List.map_congr_left
-  intro t _
-  simp
+theorem filter_range_pair (n i : Nat) (h1 : 1 ≤ i) (h2 : i < n) :
+    (List.range n).filter (fun c => decide (i = c ∨ i = c + 1)) = [i - 1, i] := by
+  induction n with
+  | zero => omega
+  | succ k ih =>
+    rw [List.range_succ, List.filter_append]
+    by_cases hik : i < k
+    · rw [ih hik]
+      have : ¬ (i = k ∨ i = k + 1) := by omega
+      simp [this]
+    · have hk : i = k := by omega
+      subst hk
+      have hpre : (List.range i).filter (fun c => decide (i = c ∨ i = c + 1)) = [i - 1] := by
+        rw [← filter_range_eq i (i - 1) (by omega)]
+        apply List.filter_congr
+        intro c hc
+        have := List.mem_range.mp hc
+        by_cases hcc : i - 1 = c
+        · have : i = c + 1 := by omega
+          simp [hcc, this]
+        · have : ¬ (i = c ∨ i = c + 1) := by omega
+          simp [hcc, this]
+      rw [hpre]
+      simp
 
 /-! ### the encoder: lower triangular ones = prefix sums -/
 
@@ -175,41 +88,36 @@ theorem getD_tril (n i : Nat) (h : i < n) :
     (tril n).getD i [] = (List.range n).map fun j => if j ≤ i then 1 else 0 := by
   simp [tril, List.getD_eq_getElem?_getD, h]
 
-theorem parity_valid' (m : Nat) (c : Code) (h : parityCode (m + 2) = .ok c) (v : List Nat)
-    (hlen : v.length = m + 2) (hb : ∀ x ∈ v, x ≤ 1) : ValidOn c v := by
+theorem parity_valid' (n : Nat) (c : Code) (h : parityCode n = .ok c) (v : List Nat)
+    (hlen : v.length = n) (hb : ∀ x ∈ v, x ≤ 1) : ValidOn c v := by
   unfold parityCode at h
-  rw [reshape_parity m] at h
-  simp only [bind, Except.bind] at h
-  obtain ⟨ps, hps, _, hev⟩ := linearizeDecoder_sound
-    (([1] ++ zeros (m + 1)) :: (List.range (m + 1)).map fun t => zeros t ++ ([1, 1] ++ zeros (m - t)))
-  simp only [hps] at h
+  obtain ⟨ps, hps, _, hev⟩ := linearizeDecoder_sound (parityDec n)
+  simp only [hps, bind, Except.bind] at h
   obtain ⟨rfl, _, _⟩ := mk'_ok _ _ _ _ _ h
-  have henc : ∀ q, q < m + 2 →
-      encFn ⟨tril (m + 2), ps.map .poly, m + 2, m + 2⟩ v q = ((v.take (q + 1)).sum % 2 == 1) := by
+  have henc : ∀ q, q < n →
+      encFn ⟨tril n, ps.map .poly, n, n⟩ v q = ((v.take (q + 1)).sum % 2 == 1) := by
     intro q hq
     rw [encFn_eq _ _ _ (by simp [tril]; exact hq)]
-    show (dot ((tril (m + 2)).getD q []) v % 2 == 1) = _
+    show (dot ((tril n).getD q []) v % 2 == 1) = _
     rw [getD_tril _ q hq, dot_tril_row _ q v hlen hq]
   intro i hi
-  have hi' : i < m + 2 := hi
+  have hi' : i < n := hi
   show decFn (ps.map .poly) _ i = _
-  rw [decFn_map_poly, hev, xorCols_onesOf]
+  rw [decFn_map_poly, hev, getD_parityDec n i hi', onesOf_parityRow n i hi']
   cases i with
   | zero =>
-    simp only [List.getD_cons_zero]
-    rw [xorIdx_first, henc 0 (by omega)]
+    rw [filter_range_first n hi', xorCols_single, henc 0 hi']
     have : (v.take 1).sum = v.getD 0 0 := by
       cases v with
       | nil => simp
       | cons b v => simp
     rw [this, bit_eq _ (getD_le_one v hb 0)]
   | succ k =>
-    have hk : k < m + 1 := by omega
-    have hrow : ((([1] ++ zeros (m + 1)) ::
-        (List.range (m + 1)).map fun t => zeros t ++ ([1, 1] ++ zeros (m - t))) : Mat).getD (k + 1) []
-        = zeros k ++ ([1, 1] ++ zeros (m - k)) := by
-      simp [List.getD_eq_getElem?_getD, hk]
-    rw [hrow, xorIdx_pair, henc k (by omega), henc (k + 1) (by omega), sum_take_succ v (k + 1)]
+    rw [filter_range_pair n (k + 1) (by omega) hi']
+    have hx : xorCols (encFn ⟨tril n, ps.map .poly, n, n⟩ v) [k + 1 - 1, k + 1]
+        = xor (encFn ⟨tril n, ps.map .poly, n, n⟩ v k) (encFn ⟨tril n, ps.map .poly, n, n⟩ v (k + 1)) := by
+      simp [xorCols]
+    rw [hx, henc k (by omega), henc (k + 1) hi', sum_take_succ v (k + 1)]
     have hle := getD_le_one v hb (k + 1)
     generalize (v.take (k + 1)).sum = S at *
     generalize v.getD (k + 1) 0 = x at *
